@@ -377,6 +377,12 @@ func (e *Engine) runPath(in *Interp, fn *ssa.Function, item WorkItem, wantSample
 					res.msg = txt + " at " + x.where
 				case pathEnd:
 					res.status, res.msg = x.status, x.msg
+					if in.eng.cfg.Verbose && (x.status == "unwind" || x.status == "unknown") {
+						func() {
+							defer func() { recover() }()
+							res.msg += " inputs: " + traceString(in.concretizeTrace(in.finalModelOrEmpty()))
+						}()
+					}
 				case unsupported:
 					res.status, res.msg = "unsupported", x.msg+" (in "+in.whereNow()+")"
 					if in.eng.cfg.Verbose {
